@@ -256,7 +256,7 @@ def check_C14(ctx):
     import handles, collections
     ctx.trusted += M1_TRUST + ["Model/File.v (handle state machine with the file-backed write cache) is tied by the correspondence run over handle-call sequences; the memory write cache (mattetti/filebuffer) is not modelled",
                                "reference = afero OsFs (os.File) run side by side; error kinds are not compared (any error = any error); EOF signalling is compared only when no byte is returned; WriteAt on O_APPEND handles and zero-length reads are outside the reference's domain"]
-    coq_props(ctx, "C14", ["C14_spec_demo"])
+    coq_props(ctx, "C14", ["C14_spec_demo", "C14_handle_refines_bytearray", "C14_handle_refines_bytearray_wide", "C14_readat_moves_cursor_refuted", "C14_seek_beyond_end_refuted", "C14_append_refuted"])
     data = handles.handle_stream(ctx)
     tie = handles.c14_tie(ctx, data)
     ctx.oblige("correspondence: Model/File.v evaluates in Coq on the observed handle sequences", tie["ok"], tie["log"])
@@ -290,5 +290,36 @@ def check_C14(ctx):
                         samples=[dict(flags=next(c["flags"] for c in data[0]["h"]["calls"] if c["op"] == "open"), calls=[(c["op"], c.get("off"), c.get("n")) for c in data[0]["h"]["calls"][:10]])] if data else [])
 
 
-REGISTRY = {"C14": check_C14, "C07": check_C07, "C06": check_C06, "C10": check_C10, "C15": check_C15, "C01": check_C01, "C02": check_C02, "C04": check_C04, "C05": check_C05,
+def check_C16(ctx):
+    import opening, collections
+    ctx.trusted += M1_TRUST + ["what the indexer makes of a cut tape is Model/Prefix.v (tied by the C06 sweep); Initialize is Model/Fs.v fs_initialize (tied by the FS correspondence run)"]
+    coq_props(ctx, "C16", ["C16_never_rewrites", "C16_existing_index_untouched", "C16_rebuild_appends_nothing", "C16_appends_only_without_root"])
+    # the FS correspondence run ties fs_initialize / reopen
+    import streams
+    data_fs = streams.fs_stream(ctx)
+    diff = fs_differential(ctx, data_fs)
+    ctx.oblige("correspondence: M1 (incl. Initialize and reopen) and the implementation agree on every compared call (%d histories)" % diff["cases"], diff["ok"] and not diff["mm"], json.dumps(diff["mm"][:5]))
+    data = opening.opening_stream(ctx)
+    nfail = 0
+    kinds = collections.Counter()
+    for d in data:
+        kinds[(d["h"]["cutkind"], d["h"]["index"])] += 1
+        for f in opening.c16_oracle(d):
+            fid = opening.classify_c16(d, f)
+            if fid and any(x["id"] == fid for x in ctx.findings):
+                ctx.known(fid, next(x["what"] for x in ctx.findings if x["id"] == fid))
+                continue
+            nfail += 1
+            if nfail <= 5:
+                h = d["h"]
+                ctx.violation(f["kind"], "%s (tape cut after %d of %d bytes, index %s)" % (f["kind"], h["cut"], h["full"], h["index"]),
+                              dict(history=dict(config=h["config"], blobs=h["blobs"], calls=h["calls"]), cut_after_bytes=h["cut"], index=h["index"], detail=f["detail"]))
+    ctx.oblige("oracle: opening never rewrites or shortens the tape, appends nothing when a root is on the tape, shows the rebuild's view, and entries written afterwards are retrievable and survive a rebuild (known findings apart)", nfail == 0, "%d failures" % nfail)
+    ctx.coverage.update(evaluations=len(data), distinct_nontrivial=len(set((d["h"]["cut"], d["h"]["index"], json.dumps(d["h"]["calls"][:d["h"]["nbase"]])) for d in data)),
+                        variants={"%s/%s" % k: v for k, v in kinds.items()},
+                        rule="tapes of generated histories, cut at record/archive boundaries (aligned) and inside header groups / data (torn), combined with an absent, current or stale index; then Initialize, two writes, a read-back and a rebuild; distinct = different (tape, cut, index kind)",
+                        samples=[dict(cut=data[0]["h"]["cut"], full=data[0]["h"]["full"], index=data[0]["h"]["index"], outcomes=[r["out"] for r in data[0]["res"]][-8:])] if data else [])
+
+
+REGISTRY = {"C16": check_C16, "C14": check_C14, "C07": check_C07, "C06": check_C06, "C10": check_C10, "C15": check_C15, "C01": check_C01, "C02": check_C02, "C04": check_C04, "C05": check_C05,
             "C12": check_C12, "C13": check_C13}
